@@ -9,7 +9,8 @@ open Lean Shelx.J
      "table":[{"label":s,"size":n,"doc":DOC,"dow":b}],                          -- what the parser says about raw contents
      "init":STATE,
      "steps":[{"cycles":n|null,"backup":b,"exit":n,"res":{"wrote":s}|"removed"|"untouched","lst":"good|missing|raises|quiet",
-               "obs":{"st":STATE,"raised":b}}]}                                 -- what the implementation did
+               "obs":{"st":STATE,"raised":b}}                                   -- what the implementation did
+              | {"op":"load","write":s?,"obs":{"st":STATE}}]}                   -- reload()/read_file() between calls
 
   File contents are symbolic (`Sym`): `raw label` — bytes the harness knows by hash (initial .res, an old .shx-bak, what
   the stand-in wrote); `written d` — what `write_shelx_file` produces for document `d` (the harness parses the real .ins
@@ -141,6 +142,21 @@ def handle (j : Json) : Except String Json := do
     let mut model : Array Json := #[]
     let mut spec : Array Json := #[]
     for s in steps do
+      if let some (.str "load") := fieldOpt s "op" then
+        -- the user re-reads the model between two calls (`reload()` / `read_file()`, optionally of a rewritten file)
+        let w ← match fieldOpt s "write" with
+          | none => pure none
+          | some l => do pure (some (Sym.raw (← str l)))
+        match load c mst w with
+        | some st' =>
+          mst := st'
+          model := model.push (Json.mkObj [("st", ofSt mst), ("exc", Json.null), ("op", Json.str "load")])
+        | none =>
+          model := model.push (Json.mkObj [("st", ofSt mst), ("exc", Json.str "FileNotFoundError"), ("op", Json.str "load")])
+        spec := spec.push Json.null
+        if let some o := fieldOpt s "obs" then
+          ost ← field o "st" >>= stOf
+        continue
       let call ← callOf s
       let r := refine fix c mst call
       let hyp := Json.mkObj [("plausible", Json.bool (plausible c mst.fs.res call.out))]
